@@ -566,4 +566,26 @@ def check_reference_matrix(seed, n_cases=0):
                     v = [m for m in v if "[KF-" not in m]
                     if v:
                         viol.append(dict(kind="program", check="reference_matrix", seed=seed, index=cases, reference=kind, source=sname, depth=depth, input=repr(inp), program=describe(P), violations=v))
+    # setup nodes with a constant activation flag, inside nested DAGs (a setup node may only depend on constants)
+    for flagv in (True, False):
+        for depth in (0, 1, 2):
+            cases += 1
+            P = Prog(f"msetup_{int(flagv)}_d0_{cases}")
+            P.params = [("p0", False, None)]
+            P.stmts.append(Stmt(op="one", args=[], active=("const", flagv), names=["s"], cfg=_thread_cfg(), setup=True))
+            P.stmts.append(Stmt(op="pair", args=[("var", "s", []), ("param", 0, [])], names=["c"], cfg=_thread_cfg()))
+            P.ret = ("tuple", [("var", "s", []), ("var", "c", [])])
+            for lvl in range(1, depth + 1):
+                O = Prog(f"msetup_{int(flagv)}_d{lvl}_{cases}")
+                O.params = [("p0", False, None)]
+                O.stmts.append(Stmt(kind="inner", inner=P, args=[("param", 0, [])], names=["r"]))
+                O.ret = ("tuple", [("var", "r", [0]), ("var", "r", [1])])
+                P = O
+            try:
+                v = one_equivalence(P, (("in", 1),), rnd)
+            except Exception as e:  # noqa: BLE001
+                v = [f"[C20] building / running a DAG that nests a setup node with twz_active={flagv} raised {type(e).__name__}: {e}"]
+            v = [m for m in v if "[KF-" not in m]
+            if v:
+                viol.append(dict(kind="program", check="reference_matrix", seed=seed, index=cases, reference="activation", source=f"setup node, constant {flagv}", depth=depth, input="('in', 1)", program=describe(P), violations=v))
     return viol, cases
